@@ -98,7 +98,7 @@ def run(ctx):
     ctx.coverage["rule"] = RULE
     ctx.assumptions += [
         "random generation never renders from_.any() in the shapes of finding D16 (a state declared after the "
-        "event; any() combined with other transitions in one expression; event= passed to any(); any() in a base "
+        "event; any() combined with other transitions in one expression; event= passed to any(); "
         "class of an inheritance rendering); those shapes are replayed from known_findings.jsonl instead",
         "order of callbacks inside one group is unconstrained (C02): callback names per group, per-step logs and "
         "result lists are compared as sorted lists; only guards and validators are made to raise",
